@@ -3,6 +3,7 @@
 From Coq Require Import ZArith List Bool.
 From AV Require Import Lib.Bytes Gen.Utils Gen.SctpConst Model.SctpRecv Model.SctpSend Model.SctpTx
   Proof.SctpRecvP Proof.SctpC01P Proof.SctpSendP Proof.SctpTxP Proof.SctpPrP Proof.SctpFwdFrameP.
+From AV Require Proof.SctpDupP Proof.SctpOrderP Proof.SctpOnceFwdP.
 Import ListNotations.
 Local Open Scope Z_scope.
 
@@ -85,6 +86,22 @@ Theorem C06_forward_tsn_other_streams : forall s cum strs id, ~ named strs id ->
   (forall x, In x (reasm st) -> ~ In x (reasm st') -> uint32_gte cum (tsn x) = true).
 Proof. exact forward_tsn_other_streams. Qed.
 Print Assumptions C06_forward_tsn_other_streams.
+
+(* 6. Duplicate-free under abandonment.  Same event lists as theorem 1 (sent DATA chunks in any
+   order with repetitions and omissions, ARBITRARY FORWARD-TSN chunks in between), TSNs inside the
+   window: the deliveries are the messages of pairwise different chunk runs, each the fragment
+   list of one sent message -- whatever is delivered on a partially reliable channel is an
+   exact copy of a sent message and no sent message is delivered twice. *)
+Theorem C06_duplicate_free : forall base N t0 msgs es,
+  SctpDupP.r32 base -> 0 <= N < 2147483648 -> in32 t0 ->
+  Forall (fun m => o_data m <> []) msgs -> Z.of_nat (total_frags msgs) <= SCTP_TSN_MODULO ->
+  Forall (SctpOnceFwdP.ev_in base N) es ->
+  (forall c, In (EvData c) es -> In c (concat (send_msgs (mkS t0 []) msgs))) ->
+  exists Ds : list (list (list chunk)),
+    map out_msgs (snd (rrun (rinit base) es)) = map (map SctpOrderP.msgf) Ds /\
+    NoDup (concat Ds) /\ Forall (fun f => In f (send_msgs (mkS t0 []) msgs)) (concat Ds).
+Proof. intros base N t0 msgs es Hb HN. exact (SctpOnceFwdP.at_most_once_all base N Hb HN t0 msgs es). Qed.
+Print Assumptions C06_duplicate_free.
 
 (* PARTIAL.  Non-interference ("abandoning on channel A never loses / reorders / blocks
    channel B") and recovery ("messages sent after the network heals are delivered")
